@@ -30,6 +30,11 @@ def genparams():
     if rc != 0:
         return False, out
     vlib.write_if_changed(os.path.join(vlib.coq_dir(PROJ), "theories", "Gen", "CsmSrc.v"), out)
+    # ... and of quartz/cron.go's firstAfter (CronSrcEquiv.v ties it to NextFire.v's first_after)
+    rc, out = vlib.run([binp, "-repo", vlib.REPO, "cronsrc"])
+    if rc != 0:
+        return False, out
+    vlib.write_if_changed(os.path.join(vlib.coq_dir(PROJ), "theories", "Gen", "CronSrc.v"), out)
     return True, ""
 
 
@@ -363,8 +368,8 @@ def compose_step(ctx, prop, res, broken):
     merged["theorems"] += list(res3["theorems"])
     merged["axioms"] = sorted(set(merged["axioms"]) | set(res3["axioms"]))
     merged["ok"] = merged["ok"] and res3.get("ok", False)
-    merged["source_tie"] = {"file": "coq/cron/theories/Gen/CsmSrc.v", "translated_from": ["internal/csm/util.go", "internal/csm/common_node.go", "internal/csm/day_node.go"],
-                            "equivalence": "coq/cron/theories/SrcEquiv.v", "checked": bool(res3.get("ok"))}
+    merged["source_tie"] = {"file": "coq/cron/theories/Gen/CsmSrc.v", "translated_from": ["internal/csm/util.go", "internal/csm/common_node.go", "internal/csm/day_node.go", "quartz/cron.go: firstAfter (Gen/CronSrc.v)"],
+                            "equivalence": "coq/cron/theories/SrcEquiv.v, SrcMachine.v, CronSrcEquiv.v", "checked": bool(res3.get("ok"))}
     if not res3.get("ok") and broken is None:
         broken = {"stage": "source-tie", "what": "the Go source of internal/csm's node level (translated into Gen/CsmSrc.v on this run) is no longer proved "
                   "equivalent to the model the cron theorems are about (SrcEquiv.v / Props/SrcTie.v)", "file": res3.get("file"), "detail": res3.get("log", "")[-2000:]}
